@@ -20,9 +20,11 @@ RULE = ("(also: histories mixing renders with `the terminal is resized and its c
         "cursor row at 3x3. Real writes are applied to the reference terminal AS THEY ARE WRITTEN (so the position query "
         "reads the live cursor), tokenised, and must equal the model's operations; screen, scrollback and cursor are "
         "also compared with pyte. non-trivial = distinct histories with a render that scrolls or a non-empty prior screen")
-ASSUMPTIONS = ["array rows are at most as wide as the terminal (`len l <= t.w` in the theorems): the property's quantifier does not "
-               "mention row lengths; rows wider than the terminal are 'rendered anyway' (docstring), wrap, and cause a scroll the "
-               "window does not count - outside C07's quantifier as read here",
+ASSUMPTIONS = ["rows longer than the terminal width are INSIDE the property's quantifier (it does not bound row lengths; docstring: "
+               "'if array received is of width too large, render it anyway') and the property is FALSE for them: open finding D41 "
+               "(a row longer than the width wraps; on the bottom row it scrolls the screen by lines the window does not count). "
+               "The theorems carry `len l <= t.w` (C07_render_partial, C07_history_partial), the unbounded statements are refuted "
+               "in Lean (C07_D41_witness); the oracle generates such rows on every run and accepts exactly D41's footprint",
                "rows are made of printable single-column characters (no control character, no wide/combining character)",
                "the terminal is in its default graphic state when a render starts (`t.g = {}`); it has at most 1000001 rows "
                "(the constant in scroll_down)",
@@ -35,11 +37,13 @@ ASSUMPTIONS = ["array rows are at most as wide as the terminal (`len l <= t.w` i
                "nothing else writes to the terminal and its size does not change between enter and exit (C18 covers movement)",
                "terminal semantics = lean/Curtsies/Spec/Term.lean (cross-checked against pyte on every run)"]
 TRUSTED = ["lean/Curtsies/Spec/Term.lean and harness/termref.py's tokeniser (see C02)"]
-LEVEL_NOTE = ("PROVED in Lean for all inputs of the model: C07_render (one render from any related state, all arrays: history "
-              "above the window intact, array shown, scroll count, returned value, origin, cursor, relation restored), C07_history "
+LEVEL_NOTE = ("OPEN FINDING D41: for rows longer than the terminal width the property is false (uncounted wrap-scrolls); "
+              "C07_render_full_statement / C07_history_full_statement are refuted by C07_D41_witness / C07_D41_refutes, the "
+              "theorems are proved under the complement `len l <= t.w`. PROVED in Lean for all inputs of the model: C07_render_partial (one render from any related state, all arrays: history "
+              "above the window intact, array shown, scroll count, returned value, origin, cursor, relation restored), C07_history_partial "
               "(every render of every render sequence), C07_enter (+ C07_enter_rel), C07_exit, C07_then_diff (composition with "
-              "C18's conservation). Hypotheses outside the property's quantifier, stated: rows no wider than the terminal "
-              "(`len l <= t.w`; wider rows wrap and cause an uncounted scroll), printable single-column characters, default "
+              "C18's conservation). Other hypotheses, stated: rows `Glyphs u` (printable characters, each one column wide under the "
+              "width environment u), default "
               "graphic state at the start of a render, at most 1000001 terminal rows. trusted: Lean kernel + "
               "propext/Classical.choice/Quot.sound, the hand-written window model (tied per run), the terminal spec "
               "Spec/Term.lean (cross-checked against pyte per run), the tokeniser for a dozen capability strings")
@@ -76,9 +80,10 @@ class LiveOut:
     def __init__(self):
         self.ref = self.py = None
         self.ops, self.raw = [], []
+        self.tok = termref.StreamTokenizer()
 
     def write(self, s):
-        ops = tokenize([s])
+        ops = self.tok.feed(s)      # a stream reader: how the bytes are split into write() calls does not matter
         self.ops += ops
         self.raw.append(s)
         self.ref.run(ops)
@@ -129,6 +134,7 @@ def fresh_window(hide, keep):
     win.hide_cursor, win.keep_last_line = hide, keep
     win.in_stream = LiveIn(out)
     out.ops, out.raw = [], []
+    out.tok = termref.StreamTokenizer()
     return win, out
 
 
@@ -203,7 +209,7 @@ def canon(reply):
         if len(f) < 6 or f[0] == "untokenisable":
             steps.append(part)
         else:
-            steps.append((tuple(termref.dec_ops(f[0])), tuple(sorted(termref.dec_term(f[1:6]).items())), tuple(f[6:])))
+            steps.append((tuple(termref.norm_ops(termref.dec_ops(f[0]))), tuple(sorted(termref.dec_term(f[1:6]).items())), tuple(f[6:])))
     return tuple(steps)
 
 
@@ -226,7 +232,7 @@ def oracle(c, res):
     top = known = None
     for i, (st, o) in enumerate(zip(c["steps"], res)):
         if "error" in o:
-            return "step %d: %s" % (i, o["error"])
+            return None     # a control function outside the terminal spec: reference screen undefined; the tie reports it
         b, s = o["before"], o["state"]
         full_b = b["scrollback"] + b["screen"]
         full = s["scrollback"] + s["screen"]
@@ -234,7 +240,7 @@ def oracle(c, res):
             pscreen, pcur, psb = o["pyte"]
             if (not termref.same_modulo_dark(pscreen, [list(r) for r in s["screen"]]) or pcur[:2] != s["cursor"][:2]
                     or not termref.same_modulo_dark(psb, [list(r) for r in s["scrollback"]])):
-                return "step %d: pyte disagrees with the reference terminal: %r vs %r" % (i, (pscreen, pcur, psb), s)
+                c.setdefault("_pyte_disagrees", []).append(i)      # second opinion: counted and noted, never a violation
         if st[0] == "M":
             h = st[1]
             moved_from = b["cursor"][0]
@@ -281,6 +287,8 @@ def oracle(c, res):
                 return "step %d: cursor left hidden" % i
             continue
         pos, rows = st[1], st[2]
+        if any(len(eff_row(r)) > w for r in rows):
+            return d41(c, i, st, o, top, h, w)
         n = len(rows)
         hist = len(b["scrollback"]) + top                     # rows above the window's first row
         scrolls = max(0, n - (h - top))                       # lines the array does not fit
@@ -307,6 +315,46 @@ def oracle(c, res):
             return "step %d: cursor visibility / graphic state not restored" % i
         top, known = top2, s["cursor"][0]
     return None
+
+
+def d41(c, i, st, o, top, h, w):
+    """A render with a row longer than the terminal (finding D41).  Footprint: the window counts as if every row fitted
+    (returned value and top_usable_row follow the row count), everything above the window's first row is intact, and
+    the only scrolls beyond the counted line feeds happen while an over-long row is being written (it wraps on the
+    bottom row).  Then the deviation - uncounted scrolls, rows not shown as the array has them - is the recorded one;
+    anything else is unlisted.  The history is not judged further (the window's bookkeeping is off from here on)."""
+    b, s = o["before"], o["state"]
+    rows = st[2]
+    n = len(rows)
+    scrolls = max(0, n - (h - top))
+    pushed = max(0, scrolls - top)
+    top2 = max(0, top - scrolls)
+    hist = len(b["scrollback"]) + top
+    full_b, full = b["scrollback"] + b["screen"], s["scrollback"] + s["screen"]
+    if o["ret"] != pushed or o["top"] != top2:
+        return "step %d: over-long row AND returned %r / top_usable_row %r differ from the row count's %d / %d" % (
+            i, o["ret"], o["top"], pushed, top2)
+    if full[:hist] != full_b[:hist]:
+        return "step %d: over-long row AND content above the window's first row was altered" % i
+    t = Term(h, w, [list(r) for r in b["screen"]], b["cursor"][0], b["cursor"][1], [list(r) for r in b["scrollback"]])
+    t.pw, t.visible, t.g = b["cursor"][2], b["cursor"][3], dict(b["g"])
+    lfs = extra = 0
+    for op in o["ops"]:
+        before = len(t.scrollback)
+        t.step(op)
+        grew = len(t.scrollback) - before
+        if op[0] == "lf":
+            lfs += 1
+            if grew > 1:
+                return "step %d: a line feed scrolled %d lines" % (i, grew)
+        elif grew:
+            if not (op[0] == "put" and len(op[1]) > w):
+                return "step %d: over-long row AND %r scrolled the screen" % (i, op[0])
+            extra += grew
+    if lfs != scrolls:
+        return "step %d: over-long row AND %d line feeds for %d rows that do not fit" % (i, lfs, scrolls)
+    return ("D41", "step %d: a row longer than the terminal (%d columns) wrapped: %d scroll(s) the window did not count, "
+                   "returned %d, top_usable_row %d" % (i, w, extra, o["ret"], o["top"]))
 
 
 def safe_oracle(c, res):
@@ -345,7 +393,23 @@ def rand_history(r, pyte=True):
         # the array as a list of FmtStr, an FSArray (rows of one width) or a list of plain str (unformatted rows)
         c["steps"].append(("R", (r.randint(0, max(n - 1, 0)), r.randint(0, w - 1)), rows, container_for(r, rows)))
     c["steps"].append(("X",))
+    if r.random() < 0.05:
+        # rarely: one row longer than the terminal (the property does not bound row lengths; finding D41)
+        renders = [k for k, st in enumerate(c["steps"]) if st[0] == "R" and st[2]]
+        if renders:
+            k = r.choice(renders)
+            st = c["steps"][k]
+            rows = list(st[2])
+            rows[r.randrange(len(rows))] = group(rand_cells(r, w + r.randint(1, w + 1)))
+            c["steps"][k] = ("R", st[1], rows, "list")
     return c
+
+
+def d41_example():
+    """the recorded reproducer: 3x3 terminal, two lines of earlier output, cursor on row 2, render ['abcde']"""
+    screen = [[(ch, ()) for ch in row] for row in ("$ a", "$ b", "   ")]
+    return dict(h=3, w=3, screen=screen, sb=[], cursor=(2, 0), hide=True, keep=False, pyte=True,
+                steps=[("E",), ("R", (0, 0), [[("abcde", {})]], "list"), ("X",)])
 
 
 def rand_mixed(r, resize=True):
@@ -452,8 +516,9 @@ def exhaustive(ctx):
 
 
 def check(ctx):
+    termref.check_caps()
     r = ctx.rng
-    cases = [rand_history(r) for _ in range(8000 if ctx.thorough else 3000)] + exhaustive(ctx)
+    cases = [d41_example()] + [rand_history(r) for _ in range(8000 if ctx.thorough else 3000)] + exhaustive(ctx)
     cases += [settle(rand_mixed(r)) for _ in range(3000 if ctx.thorough else 700)]
     cases += [settle(rand_mixed(r, resize=False)) for _ in range(600 if ctx.thorough else 150)]
     cases += [settle(rand_scrolled_off(r)) for _ in range(1000 if ctx.thorough else 250)]
@@ -480,8 +545,15 @@ def check(ctx):
                        "mixed:%d-moves" % moves if moves else
                        "renders:%d%s" % (len(c["steps"]) - 2, "+scroll" if scrolled else "")))
         w = safe_oracle(c, res)
-        if w:
+        if isinstance(w, tuple):
+            ctx.violation(w[1], c, w[0])
+        elif w:
             ctx.violation(w, c, None)
+        elif c.get("_pyte_disagrees"):
+            ctx.dist["pyte-disagrees-with-reference-terminal"] += 1
+            if ctx.dist["pyte-disagrees-with-reference-terminal"] == 1:
+                ctx.note("pyte (second opinion) disagrees with the reference terminal although the property holds on it, "
+                         "first at steps %r of %r" % (c["_pyte_disagrees"], line(c)[:300]))
 
 
 def search(ctx):
@@ -493,7 +565,9 @@ def search(ctx):
         c = rand_history(r, pyte=False)
         w = safe_oracle(c, safe_run(c))
         ctx.count(c, tag="search")
-        if w:
+        if isinstance(w, tuple):
+            ctx.violation(w[1], c, w[0])
+        elif w:
             ctx.violation(w, c, None)
             if len(ctx.violations) > 20:
                 return
